@@ -6,6 +6,7 @@ package main
 
 import (
 	"bytes"
+	"context"
 	"encoding/binary"
 	"encoding/json"
 	"fmt"
@@ -43,6 +44,9 @@ var props = map[string]propCfg{
 	"C13": {Engine: "rw",
 		Quick:    []phase{{"rw", false, 20 * time.Second}, {"rw", true, 15 * time.Second}},
 		Thorough: []phase{{"rw", false, 6 * time.Minute}, {"rw", true, 4 * time.Minute}}},
+	"C15": {Engine: "recovery",
+		Quick:    []phase{{"recovery", false, 30 * time.Second}, {"recovery", true, 20 * time.Second}},
+		Thorough: []phase{{"recovery", false, 8 * time.Minute}, {"recovery", true, 6 * time.Minute}}},
 	"C05": {Engine: "conc",
 		Quick:    []phase{{"conc", false, 25 * time.Second}, {"conc", true, 35 * time.Second}},
 		Thorough: []phase{{"conc", false, 6 * time.Minute}, {"conc", true, 12 * time.Minute}}},
@@ -65,6 +69,7 @@ type Summary struct {
 	Probes       map[string]int  `json:"probes"`
 	SwitchPairs  map[string]int  `json:"switch_pairs"`
 	Violations   []VioRef        `json:"violations"`
+	Known        map[string]int  `json:"known"`
 	Samples      []any           `json:"samples"`
 	WallS        float64         `json:"wall_s"`
 	LastIndex    uint64          `json:"last_index"`
@@ -85,47 +90,12 @@ type VioRef struct {
 	V      Violation `json:"violation"`
 }
 
-// KnownFinding is one entry of /verif/known_findings.json.
-type KnownFinding struct {
-	Status   string            `json:"status"` // "open" or "fixed"
-	Property string            `json:"property"`
-	Rule     string            `json:"rule"`
-	Shape    map[string]string `json:"shape"`
-	What     string            `json:"what"`
-	Commit   string            `json:"commit,omitempty"`
+func loadKnown() []eng.KnownFinding {
+	return eng.LoadKnown(filepath.Join(verifDir, "known_findings.json"))
 }
 
-func loadKnown() []KnownFinding {
-	b, err := os.ReadFile(filepath.Join(verifDir, "known_findings.json"))
-	if err != nil {
-		return nil
-	}
-	var f struct {
-		Findings []KnownFinding `json:"findings"`
-	}
-	if json.Unmarshal(b, &f) != nil {
-		return nil
-	}
-	return f.Findings
-}
-
-func matchKnown(k []KnownFinding, v Violation) *KnownFinding {
-	for i := range k {
-		f := &k[i]
-		if f.Status != "open" || f.Property != v.Property || f.Rule != v.Rule {
-			continue
-		}
-		ok := true
-		for key, want := range f.Shape {
-			if v.Shape[key] != want {
-				ok = false
-			}
-		}
-		if ok {
-			return f
-		}
-	}
-	return nil
+func matchKnown(k []eng.KnownFinding, v Violation) *eng.KnownFinding {
+	return eng.MatchKnown(k, eng.Violation{Property: v.Property, Rule: v.Rule, Detail: v.Detail, Shape: v.Shape})
 }
 
 func goEnv() []string {
@@ -190,7 +160,7 @@ var workers = func() int {
 
 func runPhase(ph phase, bin string, seed uint64, tmp string) *phaseResult {
 	pr := &phaseResult{Phase: ph, Sigs: map[uint64]struct{}{}, Workers: workers}
-	pr.Sum.Faults, pr.Sum.Sites, pr.Sum.Probes, pr.Sum.SwitchPairs, pr.Sum.Extra = map[string]int{}, map[string]int{}, map[string]int{}, map[string]int{}, map[string]int{}
+	pr.Sum.Faults, pr.Sum.Sites, pr.Sum.Probes, pr.Sum.SwitchPairs, pr.Sum.Extra, pr.Sum.Known = map[string]int{}, map[string]int{}, map[string]int{}, map[string]int{}, map[string]int{}, map[string]int{}
 	start := time.Now()
 	var wg sync.WaitGroup
 	var mu sync.Mutex
@@ -209,7 +179,9 @@ func runPhase(ph phase, bin string, seed uint64, tmp string) *phaseResult {
 				args := []string{"batch", "-engine", ph.Engine, "-seed", strconv.FormatUint(seed, 10), "-from", strconv.FormatUint(from, 10),
 					"-stride", strconv.Itoa(workers), "-n", "100000000", "-budget", remaining.String(), "-out", base + ".json", "-hashes", base + ".sig",
 					"-marker", base + ".mark", "-replays", filepath.Join(verifDir, "replays")}
-				cmd := exec.Command(bin, args...)
+				ctx, cancelCtx := context.WithTimeout(context.Background(), remaining+remaining/2+120*time.Second)
+				defer cancelCtx()
+				cmd := exec.CommandContext(ctx, bin, args...)
 				cmd.Env = append(os.Environ(), "GOMAXPROCS=2", "GOGC=400")
 				if ph.Race {
 					cmd.Env = append(cmd.Env, "GORACE=halt_on_error=1 exitcode=66 log_path="+base+".racelog")
@@ -320,6 +292,9 @@ func mergeSummary(pr *phaseResult, mu *sync.Mutex, base string) {
 	}
 	for k, v := range s.Extra {
 		t.Extra[k] += v
+	}
+	for k, v := range s.Known {
+		t.Known[k] += v
 	}
 	t.Violations = append(t.Violations, s.Violations...)
 	if len(t.Samples) < 3 {
@@ -486,6 +461,17 @@ func main() {
 			fmt.Printf("VIOLATION property=%s replay=%s\n", id, path)
 		}
 	}
+	knownSeen := map[string]int{}
+	for _, pr := range results {
+		for k, v := range pr.Sum.Known {
+			knownSeen[k] += v
+		}
+	}
+	for _, k := range known {
+		if k.Status == "open" && k.Property == id {
+			knownLines = append(knownLines, fmt.Sprintf("KNOWN-FINDING: property=%s %s (rule %s; observed %d times in this run)", k.Property, k.What, k.Rule, knownSeen[k.Property+" "+k.What]))
+		}
+	}
 	sort.Strings(knownLines)
 	for i, l := range knownLines {
 		if i == 0 || l != knownLines[i-1] {
@@ -504,7 +490,9 @@ func main() {
 }
 
 func replayFresh(bin, path string) (bool, string) {
-	cmd := exec.Command(bin, "replay", "-q", "-file", path)
+	ctx, cancel := context.WithTimeout(context.Background(), 120*time.Second)
+	defer cancel()
+	cmd := exec.CommandContext(ctx, bin, "replay", "-q", "-file", path)
 	cmd.Env = append(os.Environ(), "GOMAXPROCS=2")
 	b, err := cmd.CombinedOutput()
 	if ee, ok := err.(*exec.ExitError); ok && ee.ExitCode() == 1 && bytes.Contains(b, []byte("VIOLATION property=")) {
@@ -575,6 +563,7 @@ func writeEvidence(id, mode string, seed uint64, results []*phaseResult, nviol i
 	faults, sites, probes, pairs, extra := map[string]int{}, map[string]int{}, map[string]int{}, map[string]int{}, map[string]int{}
 	var samples []any
 	var phasesOut []map[string]any
+	knownObs := map[string]int{}
 	rule := ""
 	simWall := 0.0
 	for _, pr := range results {
@@ -601,6 +590,9 @@ func writeEvidence(id, mode string, seed uint64, results []*phaseResult, nviol i
 		}
 		for k, v := range pr.Sum.Extra {
 			extra[k] += v
+		}
+		for k, v := range pr.Sum.Known {
+			knownObs[k] += v
 		}
 		if len(samples) < 3 {
 			for _, s := range pr.Sum.Samples {
@@ -635,6 +627,7 @@ func writeEvidence(id, mode string, seed uint64, results []*phaseResult, nviol i
 	cov["reach_probes"] = probes
 	cov["switch_pairs_distinct"] = len(pairs)
 	cov["counters"] = extra
+	cov["known_findings_observed"] = knownObs
 	cov["phases"] = phasesOut
 	cov["real_vs_stub"] = map[string]string{
 		"real":  "all of flamego (router, tree matcher, context/chain, injector, ResponseWriter wrapper, Recovery, Logger, Renderer, Static), net/http's ServeContent/Redirect/Error helpers, http.Dir containment, charmbracelet/log",
